@@ -2061,7 +2061,9 @@ impl<W: std::io::Write + std::io::Seek> Encoder<W> {
                         use crate::metadata::MetadataBlock;
 
                         let seektable = SeekTable {
+                            // a SEEKTABLE block holds at most MAX_POINTS points
                             points: encoded_points
+                                .take(SeekTable::MAX_POINTS)
                                 .map(|p| p.into())
                                 .collect::<Vec<_>>()
                                 .try_into()
